@@ -45,9 +45,14 @@ class Rule :
                     return
 
             if hasattr(self, 'path_namespace'):
-                if (
-                    m.path is None
-                    or not m.path.startswith(self.path_namespace)
+                # matches the namespace path itself and everything beneath
+                # it: '/a/b' covers '/a/b' and '/a/b/c' but not '/a/bc'
+                ns = self.path_namespace
+                if m.path is None:
+                    return
+                if not (
+                    m.path == ns
+                    or m.path.startswith(ns.rstrip('/') + '/')
                 ):
                     return
 
